@@ -45,6 +45,8 @@ def gen_o2o(rng, n=None):
         chars.add(c)
     maxcell = 63 if n <= 40 and rng.random() < 0.5 else (255 if n <= 200 else 0x7ffe)
     cells = set()
+    if maxcell == 255 and rng.random() < 0.6:
+        cells.add(255)              # dots 12345678 = U+28FF, the last cell of the Unicode braille block
     while len(cells) < n:
         cells.add(rng.randint(1, maxcell))
     chars, cells = sorted(chars), sorted(cells)
